@@ -53,11 +53,11 @@ def worker_init():
 
 
 def bounds(tier, seed):
-    return {"nets": ["N2", "N5"], "kmax": 3 if tier == "thorough" else 2}
+    return {"nets": ["N2", "N5", "N7"], "kmax": 3 if tier == "thorough" else 2}
 
 
 def space(tier, seed):
-    items = list(A.scenarios(tier, ["N2", "N5"], unint_values=(False,)))
+    items = list(A.scenarios(tier, ["N2", "N5", "N7"], unint_values=(False,)))
     seen = set()
     for scn in list(items):
         key = (scn["net"], repr(scn["sessions"]))
